@@ -38,8 +38,13 @@ impl Actor for PlainDefault {}
 impl Actor for Strm {}
 impl RestartableActor for Strm {}
 impl StreamHandler<i32> for Strm { async fn handle(&mut self, _: &mut Context<Self>, _: i32) {} }
+/// consumes a stream of `Unhandled` items - which does not make `Unhandled` one of its messages
+pub struct StrmMsg;
+impl Actor for StrmMsg {}
+impl StreamHandler<Unhandled> for StrmMsg { async fn handle(&mut self, _: &mut Context<Self>, _: Unhandled) {} }
 
 #[derive(Clone)] pub struct Unit1;  impl Message for Unit1 { type Response = (); }
+
 #[derive(Clone)] pub struct Unit2;  impl Message for Unit2 { type Response = (); }
 #[derive(Clone)] pub struct Resp1;  impl Message for Resp1 { type Response = u32; }
 #[derive(Clone)] pub struct Unhandled;  impl Message for Unhandled { type Response = (); }
@@ -51,7 +56,7 @@ macro_rules! handlers { ($($a:ty),*) => { $(
     impl Handler<Resp1> for $a { async fn handle(&mut self, _: &mut Context<Self>, _: Resp1) -> u32 { 0 } }
     impl Handler<()> for $a { async fn handle(&mut self, _: &mut Context<Self>, _: ()) {} }
 )* } }
-handlers!(Plain, Rest, RestNoDefault, PlainDefault, Strm);
+handlers!(Plain, Rest, RestNoDefault, PlainDefault, Strm, StrmMsg);
 
 fn stream() -> futures::stream::Iter<std::ops::Range<i32>> { futures::stream::iter(0..3) }
 const D: Duration = Duration::from_millis(1);
@@ -119,6 +124,10 @@ def catalogue():
         ("into_sender",      "let _s: Sender<{M}> = {r}.into();",       "Unhandled", "Unit1"),
     ]:
         add("handler_required", name, "addr", body, ill, ok)
+    # ... and a StreamHandler for an item type is no Handler for it (same entries on an actor that consumes
+    # a stream of `Unhandled`)
+    for e in [e for e in C if e["rule"] == "handler_required" and e["recv"] == "addr" and e["ill"] == "Unhandled"]:
+        C.append(dict(e, name=e["name"] + "/stream-item", actor="StrmMsg"))
     for name, body, ill, ok in [
         ("owning.send", "let _ = {r}.send({M});", "Unhandled", "Unit1"),
         ("owning.call", "let _ = {r}.call({M});", "UnhandledResp", "Resp1"),
@@ -274,7 +283,7 @@ def render_fn(fname, entry, ill, chain_steps):
     """returns source text of one function (or item)"""
     sub = entry["ill"] if ill else entry["ok"]
     recv = entry["recv"]
-    actor = "Plain"
+    actor = entry.get("actor", "Plain")
     if entry["rule"] == "restart_restartable":
         actor = sub
         sub = ""
